@@ -18,6 +18,12 @@ func checkC35(c *Ctx) (string, []string) {
 		return "", nil
 	}
 	Vs := []int64{5, 6, 7, 9, 100, 1023}
+	if c.Tier == "thorough" {
+		Vs = nil
+		for v := int64(3); v <= 2048; v++ {
+			Vs = append(Vs, v)
+		}
+	}
 	vcResolve := func(V, sum int64, sumText string) func(ast.Expr) (astVal, bool) {
 		return func(a ast.Expr) (astVal, bool) {
 			s := types.ExprString(a)
@@ -88,7 +94,7 @@ func checkC35(c *Ctx) (string, []string) {
 					}
 				}
 				if bad == "" {
-					c.OK("C35.vote-split", key, cl.Pos(), "%s threshold correct for V ∈ %v", strings.ToLower(list), Vs)
+					c.OK("C35.vote-split", key, cl.Pos(), "%s threshold correct for %d validator counts (%d..%d)", strings.ToLower(list), len(Vs), Vs[0], Vs[len(Vs)-1])
 				} else {
 					c.Bad("C35.vote-split", key, cl.Pos(), "%s", bad)
 				}
@@ -137,7 +143,7 @@ func checkC35(c *Ctx) (string, []string) {
 				}
 			}
 			if bad == "" {
-				c.OK("C35.clearing", X+"ClearWorkReports · threshold", cond.Pos(), "clears bad and wonky, keeps good, for V ∈ %v", Vs)
+				c.OK("C35.clearing", X+"ClearWorkReports · threshold", cond.Pos(), "clears bad and wonky, keeps good, for %d validator counts (%d..%d)", len(Vs), Vs[0], Vs[len(Vs)-1])
 			} else {
 				c.Bad("C35.clearing", X+"ClearWorkReports · threshold", cond.Pos(), "%s", bad)
 			}
